@@ -134,6 +134,9 @@ def gen_mtl_call(rng, spec, roles, dtype, model=None, allow_default=True, linear
         "chunk": gen_chunk(rng, t), "retain": rng.random() < 0.5,
     }
     fix_retain(spec, call, model)
+    from ..world import gen_forms
+
+    call["forms"] = gen_forms(rng, t)
     return call
 
 
